@@ -64,7 +64,7 @@ fn request_buf_len(config: &Config) -> usize {
 /// Enough for:
 /// - IPv6 announce response with 112 peers
 /// - scrape response for 170 info hashes
-const RESPONSE_BUF_LEN: usize = 2048;
+pub const RESPONSE_BUF_LEN: usize = 2048;
 
 const USER_DATA_RECV_V4: u64 = u64::MAX;
 const USER_DATA_RECV_V6: u64 = u64::MAX - 1;
